@@ -173,6 +173,11 @@ def finish(module, prop, tier, seed, results, inconclusive, wall, replay):
         print(f"VIOLATION property={prop} replay={path}")
         print(f"  key={v['key']}: {v['msg'][:600]}")
         rc = 1
+    extra_fn = getattr(module, 'coverage_extra', None)
+    extra_values = extra_fn([r for r in results if not r.get('skipped')]) if extra_fn else {}
+    for name, value in extra_values.items():
+        if isinstance(value, (int, float)):
+            counters[name] = value
     floors = getattr(module, 'FLOORS', {}).get(tier, {}) if not replay else {}
     for name, floor in floors.items():
         if counters.get(name, 0) < floor:
@@ -184,9 +189,7 @@ def finish(module, prop, tier, seed, results, inconclusive, wall, replay):
                     'samples': samples or ['(no sample returned)'], 'counters': counters,
                     'known_findings_met': sorted(listed), 'new_violation_keys': sorted(seen_keys),
                     'tree_under_test': REPO, 'workers': NCPU}
-        extra = getattr(module, 'coverage_extra', None)
-        if extra:
-            coverage.update(extra(results))
+        coverage.update(extra_values)
         evidence = {'property_id': prop, 'tier': tier, 'seed': seed, 'level': module.LEVEL, 'coverage': coverage,
                     'assumptions': getattr(module, 'ASSUMPTIONS', []), 'wall_s': round(wall, 2),
                     'violations': len(new), 'inconclusive': inconclusive[:5]}
